@@ -39,7 +39,11 @@ Section Fwd.
         if end_put_first fl then mkF (counter s) true (out s ++ [OEnd]) ok (negb ok)
         else if ok then mkF (counter s) true (out s ++ [OEnd]) true false
              else mkF (counter s) (signalled s) (out s) false true
-    | FFinal => if final_breaks fl then mkF (counter s) (signalled s) (out s) false false else s
+    | FFinal =>
+        if final_breaks fl
+        then mkF (counter s) (signalled s || final_marks fl)
+                 (if final_marks fl && negb (signalled s) then out s ++ [OEnd] else out s) false false
+        else s
     end.
 
   (* the connection ends (closed by the peer, reset, or a message that cannot be rebuilt) *)
